@@ -219,6 +219,21 @@ DECLS = {
     'grid-template-rows': ['none', '2em', '[r] 1em [s] 2rem', 'subgrid'],
     'grid-auto-rows': ['auto', '2em', 'minmax(1em, auto) 3rem', 'fit-content(1em)', 'min-content 1fr'],
     'grid-auto-columns': ['auto', '1.5em 10px'],
+    # commit c151619: a negative factor is invalid and must not replace an earlier valid declaration
+    'flex-grow': ['0', '1', '2.5', '-1', '-0.5'],
+    'flex-shrink': ['1', '0', '3', '-1'],
+    'flex': ['1', '2 1', '-1', '1 -1', 'none'],
+    'text-overflow': ['clip', 'ellipsis'],
+    'image-orientation': ['none', 'from-image', '90deg', '180deg flip'],
+    'unicode-bidi': ['normal', 'embed', 'isolate'],
+    # not `overflow`: build.set_viewport_overflow moves it from <html> / <body> to the viewport (CSS 2.1 11.1.1),
+    # so box.style of those boxes is not the cascade's result
+    'box-sizing': ['content-box', 'border-box'],
+    'caption-side': ['top', 'bottom'],
+    'empty-cells': ['show', 'hide'],
+    'hyphens': ['manual', 'none', 'auto'],
+    'text-transform': ['none', 'uppercase'],
+    'list-style-position': ['outside', 'inside'],
 }
 # keys read on every element whatever the declarations
 ALWAYS_KEYS = ['color', 'font_size', 'font_weight', 'width', 'text_indent', 'line_height', 'display', 'float',
@@ -1003,6 +1018,32 @@ UNRELATED_CRASHES = []
 CRASH_DOCS = []
 
 
+LEFTOVER = __import__('re').compile(r'dim:[-0-9/]+:(em|rem|ex|ch|pt|pc|in|cm|mm|q)\b')
+
+
+def leftover_unit(style, keys):
+    """css-values §4: the computed value of a <length> is an absolute length (px): no em / rem / ex / ch / pt / …
+    may be left in any computed value.  -> (key, canonical value) | None"""
+    for name in keys:
+        try:
+            text = canon(style[name])
+        except Exception:  # noqa: BLE001 - reported by the other clauses
+            continue
+        if LEFTOVER.search(text):
+            return name, text
+    return None
+
+
+def leftover_unit_violation(doc, observed):
+    keys = [k for k in declared_keys(doc) if k != 'border_top_width']     # inherit-skips-computed-value is about widths
+    for (key, pseudo), (style, where) in sorted(observed.items(), key=str):
+        hit = leftover_unit(style, keys)
+        if hit:
+            return (f'{where}.style[{hit[0]!r}] of #{key}{"::" + pseudo if pseudo else ""} is {hit[1]}: a length in a relative '
+                    f'or non-px unit is left in the computed value (the computed value of a <length> is in px)')
+    return None
+
+
 def document_violation(doc, rank, reference_winner):
     """Render the document and compare box.style with the oracle.  -> text | None"""
     try:
@@ -1015,6 +1056,9 @@ def document_violation(doc, rank, reference_winner):
         return None
     observed = observed_styles(doc, html, style_for, pages)
     want = oracle_styles(doc, html, rank, reference_winner, observed)
+    leftover = leftover_unit_violation(doc, observed)
+    if leftover:
+        return leftover
     for (key, pseudo), (style, where) in sorted(observed.items(), key=str):
         if (key, pseudo) not in want:
             continue
@@ -1065,6 +1109,12 @@ def judge(d, reference_winner, reference_page_match, rank):
     if section == 'regressions':
         from harness.c06_real import judge_regression
         return judge_regression(meta, impl)
+    if section == 'spec-tables':
+        from harness.c06_real import judge_spec
+        return judge_spec(meta, impl, d['model'])
+    if section == 'presentational-hints':
+        from harness.c06_real import judge_hints
+        return judge_hints(meta, impl)
     if section == 'character-ratio-cache':
         from harness.c06_real import judge_ratio
         return judge_ratio(meta, impl)
@@ -1275,6 +1325,9 @@ def replay(data, reference_winner, reference_page_match, rank):
         from harness import c06_real
         _, out = c06_real.run_case(meta['case'])
         return c06_real.judge_regression(meta, out)
+    if section == 'spec-tables':
+        from harness import c06_real
+        return c06_real.replay_spec(meta)
     if section == 'character-ratio-cache':
         from harness import c06_real
         return c06_real.replay_ratio(meta)
